@@ -226,6 +226,23 @@ def _wrap(repo, L, fs, ws: Func):
     if len(whiles) != 1:
         raise AnalysisError(f"{len(whiles)} while loops in write_scaffold")
     wl = whiles[0]
+    # every byte of a chunk goes through the wrap loop: no other read of the chunk / write to the output inside the chunk loop
+    from ..util import ancestors as _ancs
+
+    chunk_loop = next((a for a in _ancs(wl) if isinstance(a, ast.For)), None)
+    if chunk_loop is not None:
+        stray = []
+        for x in walk_shallow(chunk_loop):
+            if isinstance(x, ast.Call) and isinstance(x.func, ast.Attribute) and not any(a is wl for a in _ancs(x)):
+                if x.func.attr == "write" and norm(x.func.value) in out_names:
+                    stray.append(norm(x)[:60])
+                if x.func.attr in ("read", "getvalue", "read1", "readinto") and isinstance(chunk_loop.target, ast.Name) and is_name(x.func.value, chunk_loop.target.id):
+                    stray.append(norm(x)[:60])
+        L.check(
+            not stray, "R3", ws.short + ":single-writer", "inside the chunk loop all reads/writes go through the wrap loop",
+            f"sequence bytes are read or written outside the line-wrapping loop ({stray[:2]}): they bypass the line counter, so lines can come out longer or shorter than the configured line length",
+            ws.loc(chunk_loop), witness={"line_length": 50},
+        )
     # the counter: variable passed to read()
     reads = [c for c in walk_shallow(wl) if isinstance(c, ast.Call) and isinstance(c.func, ast.Attribute) and c.func.attr == "read"]
     if len(reads) != 1 or len(reads[0].args) != 1 or not isinstance(reads[0].args[0], ast.Name):
